@@ -23,12 +23,22 @@ class TranslationError(Exception):
 
 
 class Tr:
-    def __init__(self, ty):
-        self.ty = ty            # 'Nat' | 'Int'
+    def __init__(self, ty, pty=None):
+        self.ty = ty            # 'Nat' | 'Int' | 'Prop' | 'String'
+        self.pty = pty or ('Int' if ty == 'Prop' else ty)     # type of the parameters
         self.params = set()
         self.locals = set()
 
+    RESERVED = {'end', 'at', 'from', 'fun', 'if', 'then', 'else', 'in', 'do', 'let', 'have', 'show', 'with', 'match', 'open',
+                'section', 'namespace', 'instance', 'structure', 'class', 'def', 'theorem', 'where', 'by', 'Type', 'Prop',
+                'Sort', 'variable', 'example', 'import', 'macro', 'syntax', 'deriving', 'for', 'return', 'unless', 'true',
+                'false', 'max', 'min', 'pad'}
+
     def ref(self, node):
+        r = self.ref_(node)
+        return r + '_' if r in self.RESERVED else r
+
+    def ref_(self, node):
         """a parameter name for Name / self.attr / x[const] / self.attr[const]"""
         if isinstance(node, ast.Name):
             return node.id
@@ -41,8 +51,13 @@ class Tr:
             return f'{node.value.id}_{node.attr}'          # geom.xlines -> geom_xlines
         if isinstance(node, ast.Subscript):
             idx = node.slice
+            if isinstance(idx, ast.UnaryOp) and isinstance(idx.op, ast.USub) and isinstance(idx.operand, ast.Constant) \
+                    and isinstance(idx.operand.value, int):
+                base = self.ref_(node.value)
+                if base is not None:
+                    return f'{base}_m{idx.operand.value}'       # x[-1] -> x_m1
             if isinstance(idx, ast.Constant) and isinstance(idx.value, int):
-                base = self.ref(node.value)
+                base = self.ref_(node.value)
                 if base is not None:
                     return f'{base}_{idx.value}'
         return None
@@ -61,6 +76,9 @@ class Tr:
             op = {ast.Add: '+', ast.Sub: '-', ast.Mult: '*', ast.FloorDiv: '/', ast.Mod: '%'}.get(type(e.op))
             if op is None:
                 raise TranslationError(f'operator {type(e.op).__name__}')
+            if self.pty == 'Int' and op in '/%':
+                # Python floors: `Int.fdiv` / `Int.fmod`, whatever the signs
+                return f'(Int.{"fdiv" if op == "/" else "fmod"} {self.expr(e.left)} {self.expr(e.right)})'
             return f'({self.expr(e.left)} {op} {self.expr(e.right)})'
         if isinstance(e, ast.UnaryOp) and isinstance(e.op, ast.USub):
             if self.ty == 'Nat':
@@ -94,6 +112,12 @@ class Tr:
             if f == 'pad' and len(a) == 2:                   # utils.pad, translated above as Gen.pad
                 return f'(pad {self.expr(a[0])} {self.expr(a[1])})'
             raise TranslationError(f'call of {f}')
+        if isinstance(e, ast.Compare) and len(e.ops) == 1 and isinstance(e.ops[0], (ast.Is, ast.IsNot)) \
+                and isinstance(e.comparators[0], ast.Constant) and e.comparators[0].value is None \
+                and self.ref(e.left) is not None:
+            r = self.ref(e.left) + '_given'                      # `x is not None` -> x_given : Prop
+            self.params.add(r)
+            return r if isinstance(e.ops[0], ast.IsNot) else f'(¬ {r})'
         if isinstance(e, ast.Compare):
             parts, left = [], e.left
             for op, right in zip(e.ops, e.comparators):
@@ -121,8 +145,9 @@ class Tr:
             return self.expr(s.value)
         if isinstance(s, ast.Assign) and len(s.targets) == 1 and isinstance(s.targets[0], ast.Name):
             v = self.expr(s.value)
-            self.locals.add(s.targets[0].id)
-            return f'(let {s.targets[0].id} := {v}; {self.body(rest)})'
+            nm = self.ref(s.targets[0])
+            self.locals.add(nm)
+            return f'(let {nm} := {v}; {self.body(rest)})'
         if isinstance(s, ast.If):
             t = self.expr(s.test)
             a = self.body(s.body)
@@ -451,6 +476,17 @@ SPEC = [
     ('ad_branch', 'read.py', 'SgzReader.read_anticorrelated_diagonal', ('ifcall', 'get_trace', 0), 'Prop'),
     ('ad_index_a', 'read.py', 'SgzReader.read_anticorrelated_diagonal', ('callarg', 'get_trace', 0, 0), 'Int'),
     ('ad_index_b', 'read.py', 'SgzReader.read_anticorrelated_diagonal', ('callarg', 'get_trace', 1, 0), 'Int'),
+    # accessors.py
+    ('acc_sign', 'accessors.py', 'SubvolumeAccessor._check_subscripts', ('assign', 'sign', 0), 'Int'),
+    ('acc_first', 'accessors.py', 'SubvolumeAccessor._check_subscripts', ('tuple', 'first', 0), 'Int'),
+    ('acc_end', 'accessors.py', 'SubvolumeAccessor._check_subscripts', ('tuple', 'end', 0), 'Int'),
+    ('acc_bad_start', 'accessors.py', 'SubvolumeAccessor._check_subscripts', ('iftest', 0), 'Prop'),
+    ('acc_bad_stop', 'accessors.py', 'SubvolumeAccessor._check_subscripts', ('iftest', 1), 'Prop'),
+    ('acc_bad_step', 'accessors.py', 'SubvolumeAccessor._check_subscripts', ('iftest', 2), 'Prop'),
+    ('acc_step', 'accessors.py', 'SubvolumeAccessor._get_index_subscripts', ('assign', 'step', 0, 'orelse'), 'Int'),
+    ('acc_stop_is_end', 'accessors.py', 'SubvolumeAccessor._get_index_subscripts', ('iftest', 0), 'Prop'),
+    ('acc_negative_index', 'accessors.py', 'Accessor.__getitem__', ('callarg', 'values_function', 1, 0), 'Int'),
+    ('acc_is_negative', 'accessors.py', 'Accessor.__getitem__', ('iftest', 1), 'Prop'),
     # loader.py, 2D
     ('trace_range_offset', 'loader.py', 'SgzLoader2d.read_and_decompress_trace_range', ('assign', 'block_offset', 0), 'Nat'),
     ('trace_range_length', 'loader.py', 'SgzLoader2d.read_and_decompress_trace_range', ('callarg', '_get_compressed_bytes', 0, 1), 'Nat'),
@@ -464,21 +500,32 @@ def translate_one(name, fname, qual, sel, ty):
     path = os.path.join(env.REPO, 'seismic_zfp', fname)
     tree = ast.parse(open(path, encoding='utf-8').read())
     fn = _find_function(tree, qual)
-    tr = Tr(ty)
+    tr = Tr(ty, 'Nat' if name == 'ver_dev' else None)
     if sel[0] == 'func':
         args = [a.arg for a in fn.args.args if a.arg != 'self']
         tr.locals = set()
         term = tr.body(fn.body)
         params = args + sorted(p for p in tr.params if p not in args)
     else:
-        term = tr.expr(_select(fn, sel))
+        node = _select(fn, sel[:-1] if sel[-1] in ('orelse', 'body') else sel)
+        if sel[-1] in ('orelse', 'body'):
+            if not isinstance(node, ast.IfExp):
+                raise TranslationError('conditional expression expected')
+            node = getattr(node, sel[-1])
+        term = tr.expr(node)
         params = sorted(tr.params)
-    binder = ' '.join(params)
     pty = 'Int' if ty == 'Prop' else ty
     if name == 'ver_dev':
         pty = 'Nat'
-    sig = f'({binder} : {pty}) ' if params else ''
-    return f'/-- `{fname}`: `{qual}` ({" ".join(str(s) for s in sel)}) -/\ndef {name} {sig}: {ty} :=\n  {term}\n'
+    plain = [p for p in params if not p.endswith('_given')]
+    given = [p for p in params if p.endswith('_given')]
+    sig = (f'({" ".join(plain)} : {pty}) ' if plain else '') + (f'({" ".join(given)} : Prop) ' if given else '')
+    text = f'/-- `{fname}`: `{qual}` ({" ".join(str(s) for s in sel)}) -/\ndef {name} {sig}: {ty} :=\n  {term}\n'
+    if ty == 'Prop':
+        dec = ''.join(f'[Decidable {g}] ' for g in given)
+        text += (f'\ninstance {sig}{dec}: Decidable ({name} {" ".join(plain + given)}) := by\n'
+                 f'  unfold {name}; infer_instance\n')
+    return text
 
 
 def generate(write=True):
